@@ -96,6 +96,72 @@ func (h *hist) finish(key string) {
 	h.close()
 }
 
+// faultPhase: the websocket writer of one member of g exits (write error or
+// timeout) while its reader has not noticed: the member stays in the group.
+// "If broadcast, to every member" must keep holding for all the others, for
+// chat, usermessage and the clearchat notification, whoever sends (also the
+// dying member itself, whose reader still works).  Model/Signal.v has no
+// such state, so from here on the history is monitored but no longer
+// written to the trace.
+func (h *hist) faultPhase(g string) {
+	r, t := h.r, h.t
+	h.quiesce()
+	h.drainAll()
+	h.silent = true
+	for i, u := range []string{"oper", "plain", "mod", "capt"} {
+		if len(h.cs) >= 12 {
+			break
+		}
+		c := h.client(fmt.Sprintf("f%d", i))
+		h.joinAs(c, g, u)
+	}
+	h.quiesce()
+	h.takeAll()
+	var ms []*cl
+	for _, c := range h.cs {
+		if !c.c.Dead && c.c.GroupName() == g {
+			ms = append(ms, c)
+		}
+	}
+	if len(ms) < 3 {
+		return
+	}
+	x := ms[r.Intn(len(ms))]
+	h.take(x)
+	x.c.KillWriter()
+	h.deadW[x] = true
+	t.Note(fmt.Sprintf("dead-writer-phase:members=%d", len(ms)))
+	n := r.Range(6, 10)
+	for i := 0; i < n; i++ {
+		c := ms[r.Intn(len(ms))]
+		if c.c.Dead || !c.c.HasGroup() {
+			continue
+		}
+		if i == 1 {
+			c = x // the dying member's reader still works
+		}
+		switch {
+		case c != x && has(c.c.Permissions(), "op") && r.Chance(1, 4):
+			h.sendClearchat(c, clearMsg("", c.id), "", c.id, false)
+		default:
+			m := &smsg{Type: "chat", ID: fmt.Sprintf("w%d", tagSeq)}
+			if r.Chance(1, 3) {
+				m = &smsg{Type: "usermessage", Kind: "note"}
+			}
+			if c != x {
+				m.NoEcho = r.Chance(1, 3)
+				if r.Chance(1, 6) {
+					m.Dest = x.id // lost, silently
+				}
+			}
+			if r.Bool() {
+				m.Source = c.id
+			}
+			h.chat(c, m)
+		}
+	}
+}
+
 // ---------------------------------------------------------------- corpus
 
 func corpus(t *tr.Trace, r *tr.Rand) {
@@ -243,6 +309,17 @@ func corpus(t *tr.Trace, r *tr.Rand) {
 		fill()
 		h.sendClearchat(o, clearMsg("", ""), "", "", false)
 		h.finish("corpus-clearchat")
+	}
+	// a member whose writer has exited is still a member
+	for k := 0; k < 3; k++ {
+		h := newHist(t, r, "corpus-dead-writer")
+		h.mkgroup(groupSpec("g"))
+		o, p := h.client("o"), h.client("p")
+		h.joinAs(o, "g", "oper")
+		h.joinAs(p, "g", "plain")
+		h.chat(o, &smsg{Type: "chat", ID: "a1", Source: "o"})
+		h.faultPhase("g")
+		h.finish(fmt.Sprintf("corpus-dead-writer-%d", k))
 	}
 	// eviction: exactly 49, 50, 51 and 64 broadcast chats, a joiner each time
 	for _, n := range []int{49, 50, 51, 64} {
@@ -442,6 +519,7 @@ func randomHistory(t *tr.Trace, r *tr.Rand, idx int) {
 		}
 		if len(h.cs) < 9 {
 			j := h.client("late")
+			home[j] = g
 			h.joinAs(j, g, "plain")
 			h.pump(j)
 			h.drainAll()
@@ -570,6 +648,10 @@ func randomHistory(t *tr.Trace, r *tr.Rand, idx int) {
 				h.state(g)
 			}
 		}
+	}
+	if r.Chance(1, 3) {
+		// ends the traced part of the history
+		h.faultPhase(groups[r.Intn(ng)])
 	}
 	// a late joiner sees what is left
 	if len(h.cs) < 9 {
